@@ -43,6 +43,27 @@ class PolarizedRays(RealRays):
         self._M0 = M.copy()
         self._N0 = N.copy()
 
+    def rotate_x(self, rx: float):
+        """Rotate the rays (and the polarization matrices) about the x-axis."""
+        super().rotate_x(rx)
+        c, s = np.cos(rx), np.sin(rx)
+        rot = np.array([[1, 0, 0], [0, c, -s], [0, s, c]])
+        self.p = np.matmul(rot, self.p)
+
+    def rotate_y(self, ry: float):
+        """Rotate the rays (and the polarization matrices) about the y-axis."""
+        super().rotate_y(ry)
+        c, s = np.cos(ry), np.sin(ry)
+        rot = np.array([[c, 0, s], [0, 1, 0], [-s, 0, c]])
+        self.p = np.matmul(rot, self.p)
+
+    def rotate_z(self, rz: float):
+        """Rotate the rays (and the polarization matrices) about the z-axis."""
+        super().rotate_z(rz)
+        c, s = np.cos(rz), np.sin(rz)
+        rot = np.array([[c, -s, 0], [s, c, 0], [0, 0, 1]])
+        self.p = np.matmul(rot, self.p)
+
     def get_output_field(self, E: np.ndarray) -> np.ndarray:
         """
         Compute the output electric field given the input electric field.
